@@ -176,6 +176,10 @@ type c06Edge struct {
 type c06Runner struct {
 	w *Worker
 	g *tlcGraph
+	// the device's own view of the request it raised (the CPU must not modify the object)
+	backing []uint8
+	reqCopy []uint8
+	reqType z80.InterruptType
 }
 
 const c06Handler = 0x2345 // mode-2 handler address stored in the vector table
@@ -216,6 +220,19 @@ func (r *c06Runner) build(a *absState, p *c06Point, in *c06Instr) *z80.Interrupt
 			req = z80.IM2Interrupt(p.Vec)
 		}
 	}
+	r.reqCopy = r.reqCopy[:0]
+	if req != nil && len(req.Data) > 0 {
+		// the request data is a window of a larger array owned by the device: sentinels before and after
+		r.backing = append(r.backing[:0], 0xA5, 0x5A)
+		r.backing = append(r.backing, req.Data...)
+		r.backing = append(r.backing, 0xC3, 0x3C, 0x99)
+		req.Data = r.backing[2 : 2+len(req.Data) : len(r.backing)]
+		r.reqCopy = append(r.reqCopy[:0], r.backing...)
+	}
+	r.reqType = 0
+	if req != nil {
+		r.reqType = req.Type
+	}
 	w.cpu.Interrupt = req
 	return req
 }
@@ -246,6 +263,18 @@ func (r *c06Runner) replayEdge(si int, p *c06Point, in *c06Instr) ([]string, str
 	}
 	got := fromCPU(&w.cpu)
 	accepted := req != nil && w.cpu.Interrupt == nil
+	if req != nil {
+		// the request object belongs to the device that raised it: accepted or refused, it must be left as it was
+		if req.Type != r.reqType {
+			return []string{"the Step modified the Type of the request object"}, "", false
+		}
+		if len(r.reqCopy) > 0 && (len(req.Data) != len(r.reqCopy)-5 || string(r.backing) != string(r.reqCopy)) {
+			return []string{fmt.Sprintf("the Step modified the request's Data (or the device's array around it): before % X after % X, len(Data) %d", r.reqCopy, r.backing, len(req.Data))}, "", false
+		}
+		if m, ok := w.cpu.Memory.(*obs.Mem); !ok || m != w.imem {
+			return []string{"CPU.Memory was not restored after the Step"}, "", false
+		}
+	}
 	// ---- abstract the result ----
 	var b absState
 	b.IFF1, b.IFF2, b.IM = got.IFF1, got.IFF2, got.IM
